@@ -223,7 +223,9 @@ class PathCtx:
         k = self.known.get(sb.id)
         if k is not None:
             return k
-        key = ('ent', sb.id, len(self.hyps), len(self.pc))
+        if self.fresh.get(('ent+', sb.id)):
+            return True                     # hypotheses only grow: a proved entailment stays proved
+        key = ('ent', sb.id, len(self.pc))  # a failed attempt is retried only after a new branch decision
         if key in self.fresh:
             return self.fresh[key]
         # quick refutation by a live sample
@@ -235,17 +237,25 @@ class PathCtx:
                     break
             except (EvalUndefined, OverflowError, ZeroDivisionError, ValueError):
                 pass
+        gkey = None
+        if r is None:
+            gkey = (sb.id, hash(tuple(h.id for h in self.all_hyps())))
+            r = self.ex.ent_cache.get(gkey)      # paths are re-executed from scratch: same question, same hypotheses
         if r is None:
             saved = T.CTX[0]
             T.CTX[0] = None
             try:
                 # term-level export only: the normaliser must not be re-entered (its caches would be filled
                 # without the sign information that is being asked for)
-                st, _, _ = solve.z3_check(list(self.all_hyps()), sb, timeout_s=2.0, alg=None)
+                st, _, _ = solve.z3_check(list(self.all_hyps()), sb, timeout_s=0.6, alg=None)
             finally:
                 T.CTX[0] = saved
             r = (st == 'proved')
+            if gkey is not None:
+                self.ex.ent_cache[gkey] = r
         self.fresh[key] = r
+        if r:
+            self.fresh[('ent+', sb.id)] = True
         return r
 
     def strict_live(self):
@@ -306,17 +316,27 @@ class PathCtx:
                         self.known[sb.id] = not got
                         return not got
                 self._pending_canon = ck
-        if sb.op == 'and':
+        if sb.op == 'and' and len(sb.args) <= 3:
             # evaluate conjuncts one by one (same truth value, fewer composite literals)
             for a in sb.args:
                 if not self.decide(a):
                     return False
             return True
-        if sb.op == 'or':
+        if sb.op == 'or' and len(sb.args) <= 3:
             for a in sb.args:
                 if self.decide(a):
                     return True
             return False
+        if sb.op in ('and', 'or'):
+            # wide conjunctions / disjunctions (allclose, array_equal over many cells) are ONE decision: splitting them
+            # conjunct by conjunct multiplies the paths without telling the obligations anything they use
+            decided = [self.known.get(a.id) for a in sb.args]
+            if sb.op == 'and' and any(d is False for d in decided):
+                return False
+            if sb.op == 'or' and any(d is True for d in decided):
+                return True
+            if all(d is not None for d in decided):
+                return all(decided) if sb.op == 'and' else any(decided)
         if sb.op == 'not':
             return not self.decide(sb.args[0])
         if self.pos < len(self.decisions):
@@ -332,6 +352,14 @@ class PathCtx:
             self._pending_canon = None
         self.known[sb.id] = val
         self.known[snot(sb).id] = not val
+        if sb.op == 'and' and val:
+            for a in sb.args:
+                self.known[a.id] = True
+                self.known[snot(a).id] = False
+        if sb.op == 'or' and not val:
+            for a in sb.args:
+                self.known[a.id] = False
+                self.known[snot(a).id] = True
         self._filter_live(lit)
         self.trace.append((T.show(lit, 4), _caller_site()))
         return val
@@ -412,6 +440,7 @@ class Explorer:
         self.feas_timeout = feas_timeout
         self.assumption_notes = set()
         self.paths = []
+        self.ent_cache = {}
 
     def run(self, body, on_path=None):
         """body(ctx) executes one path (build inputs, call, ensures); on_path(ctx) is called while the
